@@ -820,6 +820,27 @@ def M_str_find(reverse):
     return f
 
 
+def M_str_split_once_str(it, ctx, args, st):
+    """str::split_once(pat) for a concrete &str pattern: the text before and after its first occurrence"""
+    s = sval(st, args[0])
+    py = bstr_py(sval(st, args[1]))
+    if py is None or not py:
+        raise Unsupported('split_once with a symbolic / empty pattern')
+    K, lp = len(s.bytes), len(py)
+
+    def go(st, k):
+        if k + lp > K:
+            yield st, it.none
+            return
+        hit = z3.And(z3.ULE(bv(k + lp), s.len), *[s.bytes[k + j] == py[j] for j in range(lp)])
+        for s2, h in fork_bool(it, st, hit):
+            if h:
+                yield s2, it.some(Agg('tuple', (s2.ref(bstr_slice(s, bv(0), bv(k))), s2.ref(bstr_slice(s, bv(k + lp), s.len)))))
+            else:
+                yield from go(s2, k + 1)
+    yield from go(st, 0)
+
+
 def M_str_split_once_char(it, ctx, args, st):
     """str::split_once(ch) for a concrete ASCII char: the text before and after its first occurrence"""
     s = sval(st, args[0])
@@ -1222,6 +1243,35 @@ def M_any(it, ctx, args, st):
     yield from go(st, itv)
 
 
+def M_find_map(it, ctx, args, st):
+    """Iterator::find_map(f): the first Some(..) that f returns"""
+    itv = itval(st, args[0]) if isinstance(args[0], Ptr) else as_iter(it, st, args[0])
+    p = args[0] if isinstance(args[0], Ptr) else None
+
+    def go(st, itv):
+        for s2, i2, item in it_next(it, st, itv, ctx.fr):
+            if item is None:
+                if p is not None:
+                    s2.write(p, i2)
+                yield s2, it.none
+                continue
+            if is_abnormal(item):
+                yield s2, item
+                continue
+            for s3, r in it.call_closure(args[1], [item], s2, ctx.fr):
+                if is_abnormal(r):
+                    yield s3, r
+                    continue
+                for s4, hit in fork_bool(it, s3, it.variant_of(r, 'Some')):
+                    if hit:
+                        if p is not None:
+                            s4.write(p, i2)
+                        yield s4, r
+                    else:
+                        yield from go(s4, i2)
+    yield from go(st, itv)
+
+
 def M_find(it, ctx, args, st):
     itv = itval(st, args[0])
 
@@ -1317,6 +1367,41 @@ def M_u8_class(name):
     def f(it, ctx, args, st):
         b = st.deref_all(args[0]) if isinstance(args[0], Ptr) else args[0]
         yield st, tests[name](b)
+    return f
+
+
+_LATIN1_ALPHA = [0xAA, 0xB5, 0xBA] + [c for c in range(0xC0, 0x100) if c not in (0xD7, 0xF7)]
+_LATIN1_NUMERIC = [0xB2, 0xB3, 0xB9, 0xBC, 0xBD, 0xBE]
+
+
+def M_char_class(name):
+    """char::is_ascii_* (exact) and the Unicode predicates is_alphabetic / is_numeric / is_alphanumeric / is_whitespace / is_uppercase /
+    is_lowercase: exact below U+0100 (ASCII + Latin-1 tables), an unconstrained Boolean per character above (over-approximation:
+    counterexamples through it are replayed natively)"""
+    rng = lambda c, lo, hi: z3.And(z3.UGE(c, lo), z3.ULE(c, hi))
+    ascii_tests = {'is_ascii_lowercase': lambda c: rng(c, 97, 122), 'is_ascii_uppercase': lambda c: rng(c, 65, 90), 'is_ascii_digit': lambda c: rng(c, 48, 57),
+                   'is_ascii_alphabetic': lambda c: z3.Or(rng(c, 97, 122), rng(c, 65, 90)), 'is_ascii_alphanumeric': lambda c: z3.Or(rng(c, 97, 122), rng(c, 65, 90), rng(c, 48, 57)),
+                   'is_ascii': lambda c: z3.ULT(c, 128), 'is_ascii_hexdigit': lambda c: z3.Or(rng(c, 48, 57), rng(c, 97, 102), rng(c, 65, 70)),
+                   'is_ascii_whitespace': lambda c: z3.Or(c == 32, c == 9, c == 10, c == 12, c == 13), 'is_ascii_punctuation': lambda c: z3.Or(rng(c, 33, 47), rng(c, 58, 64), rng(c, 91, 96), rng(c, 123, 126)),
+                   'is_ascii_graphic': lambda c: rng(c, 33, 126), 'is_ascii_control': lambda c: z3.Or(z3.ULT(c, 32), c == 127)}
+
+    def f(it, ctx, args, st):
+        c = st.deref_all(args[0]) if isinstance(args[0], Ptr) else args[0]
+        if name in ascii_tests:
+            yield st, ascii_tests[name](c)
+            return
+        alpha_lo = z3.Or(rng(c, 97, 122), rng(c, 65, 90), *[c == x for x in _LATIN1_ALPHA])
+        num_lo = z3.Or(rng(c, 48, 57), *[c == x for x in _LATIN1_NUMERIC])
+        low = {'is_alphabetic': alpha_lo, 'is_numeric': num_lo, 'is_alphanumeric': z3.Or(alpha_lo, num_lo),
+               'is_whitespace': z3.Or(c == 32, rng(c, 9, 13), c == 0x85, c == 0xA0),
+               'is_uppercase': z3.Or(rng(c, 65, 90), z3.And(rng(c, 0xC0, 0xDE), c != 0xD7)),
+               'is_lowercase': z3.Or(rng(c, 97, 122), c == 0xAA, c == 0xB5, c == 0xBA, z3.And(rng(c, 0xDF, 0xFF), c != 0xF7)),
+               'is_control': z3.Or(z3.ULT(c, 32), rng(c, 127, 159))}.get(name)
+        if low is None:
+            raise Unsupported('char::' + name)
+        n = it.counter = getattr(it, 'counter', 0) + 1
+        hi = z3.Bool(f'unicode_{name}_{n}')
+        yield st, z3.If(z3.ULT(c, 0x100), low, hi)
     return f
 
 
@@ -1458,6 +1543,11 @@ def M_partial_ord_cmpop(it, ctx, args, st):
     lt, eq = ord_lt_eq(it, st, ctx.self_ty, args[0], args[1])
     m = ctx.callee.method
     yield st, {'lt': lt, 'le': z3.Or(lt, eq), 'gt': z3.And(z3.Not(lt), z3.Not(eq)), 'ge': z3.Not(lt)}[m]
+
+
+def M_sort_by_cached_key(it, ctx, args, st):
+    """slice::sort_by_cached_key: stable in effect like sort_by_key for pure key functions (each key computed once)"""
+    yield from M_sort_by_key(it, ctx, args, st)
 
 
 def M_sort_by_key(it, ctx, args, st):
@@ -2446,6 +2536,7 @@ MODELS = [
     (r'<&*' + P + r'(?:result::Result|option::Option)<.*> as ' + P + r'iter::IntoIterator>::into_iter', M_res_into_iter, lambda it, ctx, args, st: isinstance(args[0], Enum) or (isinstance(args[0], Ptr) and isinstance(st.deref_all(args[0]), Enum))),
     (r'<(?:[iu](?:8|16|32|64|128|size)|f64|f32|bool) as ' + P + r'str::FromStr>::from_str', M_from_str_trait),
     (P + r'str::<impl str>::split_once::<char>', M_str_split_once_char),
+    (P + r'str::<impl str>::split_once::<&str>', M_str_split_once_str),
     (r'<(?:bytes::BytesMut|' + P + r'string::String|' + P + r'vec::Vec<u8>) as ' + P + r'(?:fmt|io)::Write>::write_fmt', M_write_fmt_to_buffer),
     (r'<\(?dyn ' + P + r'error::Error[^>]*\)?>::is::<.*>', M_dyn_error_is),
     (P + r'slice::<impl \[.*\]>::first', M_slice_first_last(False)), (P + r'slice::<impl \[.*\]>::last', M_slice_first_last(True)),
@@ -2494,11 +2585,30 @@ MODELS = [
     (r'<.* as ' + P + r'iter::FromIterator<.*>>::from_iter::<.*>', M_from_iter),
     (P + r'bool::<impl bool>::then_some::<.*>', M_bool_then_some), (P + r'bool::<impl bool>::then::<.*>', M_bool_then),
     (ITER + r'collect::<.*>', M_collect), (ITER + r'count', M_count), (ITER + r'all::<.*>', M_all), (ITER + r'any::<.*>', M_any),
+    (ITER + r'find_map::<.*>', M_find_map),
     (ITER + r'find::<.*>', M_find), (ITER + r'position::<.*>', M_position),
     (P + r'char::methods::<impl char>::encode_utf8', M_char_encode_utf8), (P + r'char::methods::<impl char>::len_utf8', M_char_len_utf8),
     (P + r'str::<impl str>::bytes', M_str_bytes), (P + r'str::<impl str>::split::<char>', M_str_split_char_real),
     (P + r'str::<impl str>::strip_suffix::<char>', M_strip_suffix_char),
     (P + r'str::<impl str>::splitn::<&str>', M_str_splitn_str), (P + r'slice::<impl \[.*\]>::split_first', M_split_first),
+    (P + r'char::methods::<impl char>::is_ascii_lowercase', M_char_class('is_ascii_lowercase')),
+    (P + r'char::methods::<impl char>::is_ascii_uppercase', M_char_class('is_ascii_uppercase')),
+    (P + r'char::methods::<impl char>::is_ascii_digit', M_char_class('is_ascii_digit')),
+    (P + r'char::methods::<impl char>::is_ascii_alphabetic', M_char_class('is_ascii_alphabetic')),
+    (P + r'char::methods::<impl char>::is_ascii_alphanumeric', M_char_class('is_ascii_alphanumeric')),
+    (P + r'char::methods::<impl char>::is_ascii', M_char_class('is_ascii')),
+    (P + r'char::methods::<impl char>::is_ascii_hexdigit', M_char_class('is_ascii_hexdigit')),
+    (P + r'char::methods::<impl char>::is_ascii_whitespace', M_char_class('is_ascii_whitespace')),
+    (P + r'char::methods::<impl char>::is_ascii_punctuation', M_char_class('is_ascii_punctuation')),
+    (P + r'char::methods::<impl char>::is_ascii_graphic', M_char_class('is_ascii_graphic')),
+    (P + r'char::methods::<impl char>::is_ascii_control', M_char_class('is_ascii_control')),
+    (P + r'char::methods::<impl char>::is_alphabetic', M_char_class('is_alphabetic')),
+    (P + r'char::methods::<impl char>::is_numeric', M_char_class('is_numeric')),
+    (P + r'char::methods::<impl char>::is_alphanumeric', M_char_class('is_alphanumeric')),
+    (P + r'char::methods::<impl char>::is_whitespace', M_char_class('is_whitespace')),
+    (P + r'char::methods::<impl char>::is_uppercase', M_char_class('is_uppercase')),
+    (P + r'char::methods::<impl char>::is_lowercase', M_char_class('is_lowercase')),
+    (P + r'char::methods::<impl char>::is_control', M_char_class('is_control')),
     (P + r'num::<impl u8>::is_ascii_lowercase', M_u8_class('is_ascii_lowercase')),
     (P + r'num::<impl u8>::is_ascii_uppercase', M_u8_class('is_ascii_uppercase')),
     (P + r'num::<impl u8>::is_ascii_digit', M_u8_class('is_ascii_digit')),
@@ -2515,7 +2625,7 @@ MODELS = [
     (r'<' + P + r'(slice::Iter|iter::\w+|str::Chars|vec::IntoIter|collections::btree_set::Iter|collections::btree_map::Iter)<.*> as ' + P + r'iter::Iterator>::next', M_iter_next),
     (r'<.* as ' + P + r'iter::Iterator>::next', M_iter_next, lambda it, ctx, args, st: is_model_iter(st, args[0])),
     (r'<.* as ' + P + r'iter::IntoIterator>::into_iter', M_into_iter, lambda it, ctx, args, st: is_model_iter(st, args[0]) or is_seq_ptr(st, args[0])),
-    (P + r'slice::<impl \[.*\]>::iter', M_slice_iter), (P + r'slice::<impl \[.*\]>::sort_by::<.*>', M_sort_by), (P + r'slice::<impl \[.*\]>::sort_by_key::<.*>', M_sort_by_key),
+    (P + r'slice::<impl \[.*\]>::iter', M_slice_iter), (P + r'slice::<impl \[.*\]>::sort_by::<.*>', M_sort_by), (P + r'slice::<impl \[.*\]>::sort_by_key::<.*>', M_sort_by_key), (P + r'slice::<impl \[.*\]>::sort_by_cached_key::<.*>', M_sort_by_cached_key),
     (P + r'slice::<impl \[.*\]>::len', M_vec_len), (P + r'slice::<impl \[.*\]>::is_empty', M_vec_is_empty),
     (P + r'slice::<impl \[.*\]>::contains', M_slice_contains),
     (P + r'collections::BTreeSet::<.*>::iter', M_slice_iter), (P + r'collections::HashMap::<.*>::values', M_slice_iter),
